@@ -148,7 +148,8 @@ theorem sorted_split (x : ObjId) :
             simp [hxy]
           simp only [this, List.cons_append]
           rw [← h1]
-        · simp only [insertObj, beq_iff_eq, hxy, if_false, hlt, List.cons_append]
+        · have hlt' : x.lt y = false := by simpa using hlt
+          simp only [insertObj, beq_iff_eq, hxy, if_false, hlt', Bool.false_eq_true, List.cons_append]
           rw [h2]
         · intro a ha
           rcases List.mem_cons.mp ha with rfl | ha
@@ -288,7 +289,7 @@ theorem sortKI_eq_of_perm {l₁ l₂ : List Op} (h : l₁.Perm l₂) (hd : Disti
 
 theorem sortKI_append_singleton {l : List Op} {o : Op} (hd : DistinctIds (l ++ [o]))
     (hm : ∀ x ∈ l ++ [o], x.key.isMap = true) : sortKI (l ++ [o]) = insertKI o (sortKI l) := by
-  rw [sortKI_eq_of_perm (l₂ := o :: l) (by simpa using List.perm_append_comm) hd hm]
+  rw [sortKI_eq_of_perm (l₂ := o :: l) List.perm_append_comm hd hm]
   rfl
 
 /-! ## §4 the canonical order -/
